@@ -448,7 +448,20 @@ def check_C08(ctx):
     return finish(ctx)
 
 
-CHECKS = {"C07": check_C07, "C08": check_C08, "C01": check_C01, "C02": check_C02, "C03": check_C03, "C04": check_C04, "C05": check_C05, "C06": check_C06}
+def check_C09(ctx):
+    ctx.rule = ("TLC generates structured JAX file sets (hp.obo, phenotype.hpoa, genes_to_phenotype.txt / phenotype_to_genes.txt) for every ontology of the generator families "
+                "(structure x obsolete/replaced_by, records x data-version incl. none, 9 name shapes incl. ': ', non-ASCII, >255 bytes) x 4 noise presets (NOT rows, DECIPHER rows, "
+                "# comments, column header, [Typedef] stanzas, extra tags, extra columns, repeated rows, the 3 accepted gene-file headers, alternative tag order) x 3 record orders, "
+                "checks that its writer and declarative reader agree, and emits them; the harness renders them verbatim and compares from_standard and from_standard_transitive "
+                "with the projection the spec derives, and with the Builder and binary paths on the same facts; non-trivial = a noisy preset")
+    out = tlc(ctx, "mc/MC_Jax.cfg", "mc/MC_Jax.tla", workers=14)["out"]
+    s = hv(ctx, "replay-jax", prop="C09", **{"in": out})
+    ctx.traces += s.get("cases", 0)
+    ctx.assumptions += ["generator stays inside the documented envelope: one header line in gene files, is_a lines carry '! comment', one name per record id, annotated terms exist, 4-digit years"]
+    return finish(ctx)
+
+
+CHECKS = {"C09": check_C09, "C07": check_C07, "C08": check_C08, "C01": check_C01, "C02": check_C02, "C03": check_C03, "C04": check_C04, "C05": check_C05, "C06": check_C06}
 
 
 def run_check(prop, tier, seed):
